@@ -534,6 +534,25 @@ class Impl:
                     r['written'] = []
                     r['delivery_mismatch'] = {'accepted_requests': len(accepted), 'driver_calls': [describe(c) for c in port.written]}
             out = [(body_b, rs[0], dict(info, request='b')), (body_a, rs[1], dict(info, request='a'))]
+            # burst: four writes launched in the same event-loop iteration (b, a, b, a) on the slow driver: several are pending
+            # in the port's write queue at once (far below its capacity, nothing may be dropped); all accepted, the driver
+            # must receive all four, in submission order
+            port.written.clear()
+            info = {'last_read': describe(wa), 'step': 'slow driver (%g s per write): burst b, a, b, a launched together; '
+                                                       'several writes pending in the queue at once' % delay}
+            burst = [body_b, body_a, body_b, body_a]
+            tasks = [asyncio.create_task(self.one(port, pid, 'value', b, clear=False)) for b in burst]
+            rs = list(await asyncio.gather(*tasks))
+            calls = list(port.written)
+            accepted = [r for r in rs if r['outcome'] == 'Accepted']
+            if len(calls) == len(accepted):
+                for r in rs:
+                    r['written'] = [calls.pop(0)] if r['outcome'] == 'Accepted' else []
+            else:
+                for r in rs:
+                    r['written'] = []
+                    r['delivery_mismatch'] = {'accepted_requests': len(accepted), 'driver_calls': [describe(c) for c in port.written]}
+            out += [(b, r, dict(info, request='burst %d' % i)) for i, (b, r) in enumerate(zip(burst, rs))]
         finally:
             port.write_delay = 0
             await self.drop_port(port)
@@ -917,7 +936,8 @@ def check(ctx, res):
         '1e308, 10^400, NaN, 1e400, -Infinity, -0.0, ints written as floats; 0-4 element sequences from the same pools. '
         'Port state: the last read value is None, a different value of the port type, or (second step on the same port) exactly '
         'the value just delivered for the same body; per definition one overlapping-writes scenario on a slow driver (a current, '
-        'write b, write a while b is in flight: driver must get b then a). Every accepted request must produce exactly one '
+        'write b, write a while b is in flight: driver must get b then a; then a burst b, a, b, a launched in one event-loop iteration: '
+        'several writes pending in the queue at once, driver must get all four in order). Every accepted request must produce exactly one '
         'driver call with coerce(transform(value)), in request order. '
         'distinct = distinct (definition, body); non-trivial = number port with at least one declared constraint and a numeric body')
     if ctx.replay:
